@@ -258,6 +258,28 @@ def workout():
                         except Exception:
                             pass
                         n += 1
+    # a MetaModule BUILT in code whose user-defined controller mirrors a unit-dependent controller, then the unit of the
+    # embedded module is switched through every unit (the mirrored range object may be the class-level table entry)
+    for tkey, t in spec.types().items():
+        by_name = {x.name: x for x in t.controllers}
+        for ci, c in enumerate(t.controllers):
+            if c.kind != "dependent":
+                continue
+            u = by_name[c.depends_on]
+            try:
+                mm = rv.m.MetaModule()
+                inner = mm.project.new_module(getattr(rv.m, tkey))
+                mm.user_defined_controllers = 1
+                mp = mm.mappings.values[0]
+                mp.module, mp.controller = inner.index, ci
+                mm.update_user_defined_controllers()
+                for unit in list(c.ranges) + list(c.ranges)[:1]:
+                    setattr(inner, u.attr, u.members[unit])
+                    mm.update_user_defined_controllers()
+                mm.clone()
+            except Exception:
+                pass
+            n += 1
     # a file naming a module type the specification does not have
     data = C.save(rv.Synth(rv.m.Amplifier()))
     chunks = [(cid, (b"No such type\0" if cid == b"STYP" else d)) for cid, d in codec.parse_chunks(data)]
